@@ -90,29 +90,34 @@ def f9_setid_ownership(xcp, d):
     m = stat.S_IMODE(os.lstat(os.path.join(d, "copy")).st_mode)
     return [] if m == 0o6755 or rc != 0 else ["mode 06755 copied as %o" % m]
 
-def f4_backup_names(xcp, d):
-    """C09: prefix-related names are not backups; non-UTF-8 names keep every version"""
-    bad = []
+def f4b_prefix(xcp, d):
+    """C09: prefix-related names are not backups"""
     w = os.path.join(d, "p"); os.makedirs(w)
     open(os.path.join(w, "a"), "w").write("old"); open(os.path.join(w, "a.txt.~5~"), "w").write("other")
     open(os.path.join(w, "src"), "w").write("new")
     rc, _ = run(xcp, ["--backup=auto", "src", "a"], w)
     if os.path.exists(os.path.join(w, "a.~6~")) or os.path.exists(os.path.join(w, "a.~1~")):
-        bad.append("auto mode made a backup of 'a' because of unrelated 'a.txt.~5~': %s" % sorted(os.listdir(w)))
-    w = os.fsencode(os.path.join(d, "n")); os.makedirs(w)
+        return ["auto mode made a backup of 'a' because of unrelated 'a.txt.~5~': %s" % sorted(os.listdir(w))]
+    return []
+
+def f4a_non_utf8(xcp, d):
+    """C09: names with non-UTF-8 bytes keep every version (directory copy, so the name never passes through clap)"""
+    w = os.fsencode(d)
+    srcd = os.path.join(w, b"s"); os.makedirs(srcd)
     name = b"f\xff"
     for v in (b"v1", b"v2", b"v3"):
-        open(os.path.join(w, b"src"), "wb").write(v)
-        run(xcp, ["--backup=numbered", "src", os.fsdecode(name)], os.fsdecode(w))
-    names = sorted(os.listdir(w))
-    if not (name + b".~1~" in names and name + b".~2~" in names):
-        bad.append("non-UTF-8 name: versions lost, directory has %r" % names)
-    return bad
+        open(os.path.join(srcd, name), "wb").write(v)
+        rc, err = run(xcp, ["-r", "-T", "--backup=numbered", "s", "out"], d)
+    names = sorted(os.listdir(os.path.join(w, b"out")))
+    have = {n: open(os.path.join(w, b"out", n), "rb").read() for n in names}
+    if have.get(name + b".~1~") == b"v1" and have.get(name + b".~2~") == b"v2" and have.get(name) == b"v3":
+        return []
+    return ["versions lost: destination has %r" % have]
 
 ALL = {"new:create-before-identity-check": f1_self_copy, "parfile:symlink-result-discarded": f2_symlink_result,
        "copy_node:dev-not-rdev": f3_device_number, "parblock:short-copy-not-retried": f5_short_copy,
        "walker:deref-does-not-follow-dir-links": f8_deref_dir_link, "finalise:chown-after-chmod": f9_setid_ownership,
-       "backup:names": f4_backup_names}
+       "backup:prefix-match": f4b_prefix, "backup:non-utf8-unrecognised": f4a_non_utf8}
 
 def main():
     repo = sys.argv[1]
